@@ -410,4 +410,14 @@ def run_all(ov, metas, specs, jobs):
 
     with ThreadPoolExecutor(max_workers=jobs) as ex:
         list(ex.map(one, order))
+    # memory pressure from many concurrent CBMC processes shows up as solver out-of-memory errors:
+    # run those harnesses again, two at a time, with a doubled address-space cap, before calling them inconclusive
+    retry = [s for s in order if results[s["name"]].status in ("oom", "error") and metas.get(s["name"]) is not None
+             and ("memory" in results[s["name"]].detail.lower() or "undecided" in results[s["name"]].detail or results[s["name"]].status == "oom")]
+    if retry:
+        log("  retrying %d harnesses that ran out of memory, 2 at a time" % len(retry))
+        for s in retry:
+            s["mem_gb"] = min(40, 2 * s.get("mem_gb", 10))
+        with ThreadPoolExecutor(max_workers=2) as ex:
+            list(ex.map(one, retry))
     return results
